@@ -45,11 +45,9 @@ def all_configs():
     return out
 
 
-# the model variant that describes /repo as it is (Model.v `repaired`): the six file-system repairs are in, the two proposed
-# ones (proposed_fixes/C06-drawer-returns-internal, C06-lbfgs-zero-iterations) are not.  After they are applied: set them True
-# here and in `Definition repaired` of coq/C06/Model.v.
+# the model variant that describes /repo as it is (Model.v `repaired` = repaired_all): all eight repairs are in.
 EXPECTED = {"fx_zip": True, "fx_resume": True, "fx_timer": True, "fx_dill": True, "fx_chk": True, "fx_json": True,
-            "fx_drawer": False, "fx_zero": False}
+            "fx_drawer": True, "fx_zero": True}
 
 # searches judged by the oracle only (no Coq model): a checkpointing nested sampler and a particle swarm
 ORACLE_ONLY = [
@@ -241,13 +239,7 @@ def labels(case):
     """Labels of the situations a history contains, from its specification alone."""
     out = set()
     if case.get("db"):
-        return ["database-paths-drawer" if case["search"] == "drawer" else "database-paths-rerun"]
-    if case["search"] == "lbfgs" and case.get("updates") == 0:
-        out.add("lbfgs-zero-iterations")
-    if case["search"] == "pyswarms" and case["keep_internal"]:
-        out.add("pyswarms-keep-internal")
-    if case["search"] == "pyswarms" and any(r.get("crash") for r in case["runs"]):
-        out.add("pyswarms-interrupted")
+        return ["database-paths"]
     crashes = [r["crash"] for r in case["runs"] if r.get("crash")]
     for cr in crashes:
         if cr["kind"] in ("ZW",) and cr["variant"] in ("empty", "half"):
@@ -685,14 +677,16 @@ def run(ctx):
         if os.path.isdir(cdir):
             for f in sorted(os.listdir(cdir)):
                 if f.endswith(".json"):
-                    cases.append(json.load(open(os.path.join(cdir, f)))["case"])
+                    d = json.load(open(os.path.join(cdir, f)))
+                    d["case"]["regression"] = d.get("regression") or f[:-5]
+                    cases.append(d["case"])
         cases += gen_cases(ctx, configs, probes)
     results = run_histories(cases)
     cases = pcs + extra_cases + cases
     results = pres + results
     coq_cases, coq_idx = [], []
     for i, (c, r) in enumerate(zip(cases, results)):
-        key = {k: v for k, v in c.items() if k != "salt"}
+        key = {k: v for k, v in c.items() if k not in ("salt", "regression")}
         if "ok" not in r:
             ctx.count_case(key, False, "driver-failure")
             ctx.failure("oracle", "driver failed: %s" % r.get("msg"), c, impl=r)
@@ -708,6 +702,8 @@ def run(ctx):
         ctx.oracle["cases"] += 1
         lab = labels(c)
         fails = oracle(c, res)
+        if c.get("regression"):       # pinned case of a former finding / a critical window: must pass on the repaired code
+            ctx.obligation("regression:" + c["regression"], "regression", not fails, "; ".join(m for _, m in fails)[:400])
         for sig, msg in fails:
             ctx.oracle["failures"] += 1
             ctx.failure("oracle", msg, c, classes=["%s:%s" % (l, sig) for l in lab], impl=compact(res))
